@@ -66,6 +66,29 @@ theorem unpack_accepts_exactly_packed (n : Nat) (args : Bytes) (fs : List Bytes)
   · rintro ⟨rfl, hp⟩
     exact pack_unpack fs args hp hlen
 
+/-- (data-less variants) A unit variant, an empty struct variant and an `#[rpc]` variant whose
+only field is the reply port (tuple or struct style) carry no argument bytes: their decoder accepts
+exactly the empty buffer — any non-empty `args` (trailing garbage, even a well-formed but unasked
+field) is an error — and `serialize` produces exactly that buffer. -/
+theorem dataless_variant_accepts_exactly_empty_args (args : Bytes) :
+    (unpackTyped [] args = some [] ↔ args = []) ∧ (unpackTyped [] args).isSome = decide (args = []) ∧
+    pack (encodeFields [] []) = some [] := by
+  have h : unpackTyped [] args = if args = [] then some [] else none := by
+    cases args with
+    | nil => simp [unpackTyped, unpack, unpackFrom, decodeFields]
+    | cons b bs => simp [unpackTyped, unpack, unpackFrom]
+  refine ⟨?_, ?_, by simp [encodeFields, pack]⟩
+  · rw [h]; by_cases ha : args = [] <;> simp [ha]
+  · rw [h]; by_cases ha : args = [] <;> simp [ha]
+
+/-- … and so does the whole generated `deserialize` for such a variant, cast or call. -/
+theorem dataless_message_accepts_exactly_empty_args (vs : List Variant) (v : Variant) (args : Bytes)
+    (hf : v.fields = []) (hv : findVariant vs v.kind v.tag = some v) :
+    (deserialize vs (match v.kind with | .cast => .cast v.tag args | .call => .call v.tag args)).isSome
+      = decide (args = []) := by
+  have h := (dataless_variant_accepts_exactly_empty_args args).2.1
+  cases hk : v.kind <;> rw [hk] at hv <;> simp only [deserialize, hv, hf, Option.isSome_map] <;> exact h
+
 /-- Trailing bytes after the last field are rejected (`__ptr == __args.len()`). -/
 theorem unpack_trailing_rejected (fs : List Bytes) (bs extra : Bytes) (h : pack fs = some bs)
     (hx : extra ≠ []) (hlen : (bs ++ extra).length < wordLimit) :
@@ -362,6 +385,8 @@ end C19
 #print axioms C19.builtin_roundtrip
 #print axioms C19.pack_unpack
 #print axioms C19.unpack_accepts_exactly_packed
+#print axioms C19.dataless_variant_accepts_exactly_empty_args
+#print axioms C19.dataless_message_accepts_exactly_empty_args
 #print axioms C19.unpack_trailing_rejected
 #print axioms C19.unpack_short_rejected
 #print axioms C19.unpack_length_overflow_rejected
